@@ -3,9 +3,14 @@ C08 model: a WORLD of interpreter contexts over one heap (core Lean only).
 
 Transliterates, at the granularity of one Python statement per step:
   py/module.go   Runtime/RegisterModule/GetModuleImpl (process-wide registry), NewModuleStore,
-                 ModuleStore.NewModule (Globals copied ONE level deep, every Method re-bound to the
-                 new instance, __name__/__doc__/__package__, store.modules[name], store.Builtins)
-  stdlib/stdlib.go NewContext (Import builtins, sys; fresh sys.argv / sys.path lists), ModuleInit
+                 ModuleStore.NewModule (instanceGlobals: Globals copied one level deep AND, since fix
+                 d8887ef, every list / dict value copied once more, so that no mutable container of the
+                 implementation is shared by the instances; every Method re-bound to the new instance,
+                 __name__/__doc__/__package__, store.modules[name], store.Builtins).
+                 `World.shallowGlobals = true` selects the code BEFORE that fix (Globals.Copy() only):
+                 kept for the witness theorems, never used by the generator.
+  stdlib/stdlib.go NewContext as its five steps (new store; Import builtins; Import sys;
+                 sys.argv = fresh list; sys.path = fresh list), ModuleInit
   py/import.go   ImportModuleLevelObject (store hit, then registry, else ImportError)
   py/frame.go    name lookup: module globals, then the context's builtins
   py/internal.go GetAttrString / SetAttrString / DeleteAttrString (incl. the refusal to write the
@@ -74,6 +79,9 @@ structure World where
   next : Nat → Nat                 -- per context: serial of its next allocation
   registry : List Impl             -- gRuntime.ModuleImpls (process-wide, read-only after init)
   stores : Nat → Option Store      -- context id ↦ its ModuleStore (none: no such context)
+  /-- which NewModule the process runs: `false` = the tree (instanceGlobals copies list/dict values,
+  fix d8887ef), `true` = the code before that fix (`Globals: impl.Globals.Copy()`), for witnesses -/
+  shallowGlobals : Bool := false
 
 /-! ### programs -/
 
@@ -255,7 +263,8 @@ def sortKV (l : List (String × String)) : List (String × String) := l.foldr in
 
 def renderObj (o : Obj) : String :=
   match o.kind with
-  | .module => "<module " ++ o.name ++ ">"
+  | .module =>   -- Module.M__repr__ reads the module's `__name__` global, which a program may rebind
+    "<module " ++ (match o.fields.lookup "__name__" with | some (.str n) => n | _ => "") ++ ">"
   | .type => "<class " ++ o.name ++ ">"
   | .method => "<fn " ++ o.name ++ ">"
   | .file => "<file>"
@@ -314,15 +323,55 @@ def methodEffs (c : Nat) (mref : Ref) (base : Nat) : List String → List Eff
 def setFields (fs : List (String × Val)) (upd : List (String × Val)) : List (String × Val) :=
   upd.foldl (fun acc kv => setField kv.1 kv.2 acc) fs
 
+/-- the mutable containers `instanceGlobals` copies (`*List`, `StringDict`; `*Set` is not in the model) -/
+def Kind.container : Kind → Bool
+  | .list | .dict => true
+  | _ => false
+
+/-- py/module.go instanceGlobals, one value: `some o` = the value is a list / dict object `o` of which
+the new instance gets its own copy; `none` = the value is taken over as it is (scalars, types, files,
+tuples, … and EVERYTHING in the code before fix d8887ef) -/
+def copyOf (w : World) : Val → Option Obj
+  | .ref r =>
+    if w.shallowGlobals then Option.none
+    else match w.heap r with
+      | some o => if o.kind.container ∧ o.frozen = false then some o else Option.none
+      | Option.none => Option.none
+  | _ => Option.none
+
+/-- the Globals of the new instance; the copies are the objects `base`, `base+1`, … of context `c` -/
+def globalsFields (w : World) (c : Nat) : Nat → List (String × Val) → List (String × Val)
+  | _, [] => []
+  | base, (k, v) :: rest =>
+    match copyOf w v with
+    | some _ => (k, .ref ⟨.ctx c, base⟩) :: globalsFields w c (base + 1) rest
+    | Option.none => (k, v) :: globalsFields w c base rest
+
+def globalsEffs (w : World) (c : Nat) : Nat → List (String × Val) → List Eff
+  | _, [] => []
+  | base, (_, v) :: rest =>
+    match copyOf w v with
+    | some o => .put ⟨.ctx c, base⟩ o :: globalsEffs w c (base + 1) rest
+    | Option.none => globalsEffs w c base rest
+
+def globalsCount (w : World) : List (String × Val) → Nat
+  | [] => 0
+  | (_, v) :: rest =>
+    match copyOf w v with
+    | some _ => globalsCount w rest + 1
+    | Option.none => globalsCount w rest
+
 def newModuleEffs (w : World) (c : Nat) (impl : Impl) : Ref × List Eff :=
   let mref := freshRef w c 0
   let name := if impl.name = "" then "__main__" else impl.name
-  let globals := setFields impl.globals (methodRefs c (w.next c + 1) impl.methods)
+  let cbase := w.next c + 1 + impl.methods.length
+  let globals := setFields (globalsFields w c cbase impl.globals) (methodRefs c (w.next c + 1) impl.methods)
   let globals := setFields globals [("__name__", .str name), ("__doc__", .str ""), ("__package__", .none)]
   (mref,
    [.put mref { kind := .module, frozen := false, name := name, fields := globals }]
    ++ methodEffs c mref (w.next c + 1) impl.methods
-   ++ [.bump (1 + impl.methods.length), .bindModule name mref]
+   ++ globalsEffs w c cbase impl.globals
+   ++ [.bump (1 + impl.methods.length + globalsCount w impl.globals), .bindModule name mref]
    ++ (if name = "builtins" then [.setBuiltins mref] else []))
 
 def findImpl (reg : List Impl) (name : String) : Option Impl := reg.find? (fun i => i.name = name)
@@ -432,29 +481,45 @@ def traceOf (c : Nat) (t : List (Nat × String)) : List String :=
 
 /-! ### NewContext -/
 
-/-- stdlib.NewContext: new store, Import(builtins, sys), fresh sys.argv / sys.path lists; plus the
-`__main__` module the embedder creates to run statements in (py.RunCode with inModule = nil). -/
 def strList (ss : List String) : Obj := { kind := .list, frozen := false, items := ss.map .str }
 
-def newContext (w : World) (c : Nat) (argv path : List String) : World :=
-  let w := { w with stores := fun c' => if c' = c then some {} else w.stores c' }
-  let imp (w : World) (name : String) : World :=
-    match findImpl w.registry name with
-    | some impl => applyEffs c w (newModuleEffs w c impl).2
+/-- `ctx.store = py.NewModuleStore()` -/
+def ncStore (c : Nat) (w : World) : World :=
+  { w with stores := fun c' => if c' = c then some {} else w.stores c' }
+
+/-- `py.Import(ctx, name)` of a registered implementation without code: ModuleInit → NewModule -/
+def ncImport (c : Nat) (name : String) (w : World) : World :=
+  match findImpl w.registry name with
+  | some impl => applyEffs c w (newModuleEffs w c impl).2
+  | Option.none => w
+
+/-- `sys_mod.Globals[attr] = py.NewListFromStrings(ss)` (a nil and an empty Go slice both give `[]`) -/
+def ncReplace (c : Nat) (attr : String) (ss : List String) (w : World) : World :=
+  match (w.stores c).bind (fun s => s.modules.lookup "sys") with
+  | some sysr =>
+    match w.heap sysr with
+    | some so =>
+      applyEffs c w [.put (freshRef w c 0) (strList ss), .bump 1,
+        .put sysr { so with fields := setField attr (.ref (freshRef w c 0)) so.fields }]
     | Option.none => w
-  let w := imp w "builtins"
-  let w := imp w "sys"
-  let w :=
-    match (w.stores c).bind (fun s => s.modules.lookup "sys") with
-    | some sysr =>
-      match w.heap sysr with
-      | some so =>
-        let ra := freshRef w c 0
-        let rp := freshRef w c 1
-        applyEffs c w [.put ra (strList argv), .put rp (strList path), .bump 2,
-          .put sysr { so with fields := setField "path" (.ref rp) (setField "argv" (.ref ra) so.fields) }]
-      | Option.none => w
-    | Option.none => w
+  | Option.none => w
+
+/-- the `__main__` module the embedder creates to run statements in (py.RunCode with inModule = nil) -/
+def ncMain (c : Nat) (w : World) : World :=
   applyEffs c w (newModuleEffs w c { name := "", globals := [], methods := [] }).2
+
+/-- stdlib.NewContext as the sequence of its steps; `replArgv` / `replPath` = whether the two
+replacement steps are performed (the code performs both unconditionally: `newContext`; the variants
+with a step omitted exist to state what the step is needed for) -/
+def newContextG (replArgv replPath : Bool) (w : World) (c : Nat) (argv path : List String) : World :=
+  let w := ncStore c w
+  let w := ncImport c "builtins" w
+  let w := ncImport c "sys" w
+  let w := if replArgv then ncReplace c "argv" argv w else w
+  let w := if replPath then ncReplace c "path" path w else w
+  ncMain c w
+
+/-- stdlib.NewContext: new store, Import(builtins, sys), fresh sys.argv / sys.path lists; plus `__main__` -/
+def newContext (w : World) (c : Nat) (argv path : List String) : World := newContextG true true w c argv path
 
 end GPy.C08
